@@ -51,16 +51,19 @@ static size_t gen_inif(unsigned char *x, size_t cap, const char *dir, const char
             const char *nm = r == 5 ? self : names[vh_rand() % 6];
             if (vh_rand() % 4 == 0) l = (size_t) snprintf(line, sizeof line, "@INCLUDE %s/%s", dir, nm);      /* absolute */
             else l = (size_t) snprintf(line, sizeof line, "@INCLUDE %s", nm);
-            unsigned pad = vh_rand() % 5;
+            /* long lines are kept rare and the document small: a file that includes itself is spliced 128 times, and under the
+             * sanitizer every splice costs time proportional to (document size)^2 / (length of the include line) */
+            unsigned pad = (vh_rand() % 4 == 0 && n < 6000) ? 1 + vh_rand() % 4 : (vh_rand() % 2) * 3;
+            if (pad == 4 && n > 0) pad = 1;
             /* padding that brings the line close to and beyond PATH_MAX */
-            size_t want = pad == 0 ? 0 : pad == 1 ? 4070 + vh_rand() % 40 : pad == 2 ? 4090 + vh_rand() % 20 : pad == 3 ? vh_rand() % 300 : 5000 + vh_rand() % 3000;
+            size_t want = pad == 0 ? 0 : pad == 1 ? 4070 + vh_rand() % 40 : pad == 2 ? 4093 + vh_rand() % 7 : pad == 3 ? vh_rand() % 300 : 5000 + vh_rand() % 3000;
             while (l < want && l + 2 < sizeof line) line[l++] = (vh_rand() % 9) ? ' ' : '\t';
             line[l++] = '\n';
         } else if (r == 6) { l = (size_t) snprintf(line, sizeof line, " @INCLUDE inc1.conf\n"); }            /* not at the start of a line */
         else if (r == 7) { l = (size_t) snprintf(line, sizeof line, "@INCLUDE "); size_t m = 4000 + vh_rand() % 200; while (l < m) line[l++] = 'n'; line[l++] = '\n'; }
         else if (r == 8) { l = (size_t) snprintf(line, sizeof line, "@INCLUDE inc1.conf"); }                     /* last line without LF */
-        else { l = gen_ini((unsigned char *) line, 600); }
-        if (n + l < cap) { memcpy(x + n, line, l); n += l; }
+        else { l = gen_ini((unsigned char *) line, 600); if (l > 400) l = 400; }
+        if (n + l < cap && n + l < 14000) { memcpy(x + n, line, l); n += l; }
     }
     return n;
 }
@@ -72,7 +75,7 @@ static void run_inif(const char *dir, long idx) {
     size_t l2 = (vh_rand() % 3) ? gen_ini(inc, 2000) : gen_inif(inc, 20000, dir, "inc2.conf"); put_file(dir, "inc2.conf", inc, l2);
     size_t n = gen_inif(doc, sizeof doc, dir, "main.conf"); put_file(dir, "main.conf", doc, n);
     char path[700]; snprintf(path, sizeof path, "%s/main.conf", dir);
-    vh_where = "inif"; vh_step = idx; vh_watchdog(20);
+    vh_where = "inif"; vh_step = idx; vh_watchdog(90);
     qlisttbl_t *t = qconfig_parse_file(NULL, path, '=');
     alarm(0);
     long cnt = t ? (long) t->size(t) : -1;
